@@ -50,6 +50,13 @@ type Storage struct {
 	// Key is StorageKey{contract_address, contract_name} and value is contract composite value.
 	contractUpdates *orderedmap.OrderedMap[interpreter.StorageKey, *interpreter.CompositeValue]
 
+	// replacedContractValues are the contract values of contract updates
+	// which got replaced by a later contract update for the same contract,
+	// e.g. when a contract is added and removed again in the same execution.
+	// These values were never written, but their slabs were already allocated,
+	// so they need to be removed when the contract updates are committed.
+	replacedContractValues []*interpreter.CompositeValue
+
 	Ledger atree.Ledger
 
 	memoryGauge common.MemoryGauge
@@ -184,6 +191,15 @@ func (s *Storage) recordContractUpdate(
 	if s.contractUpdates == nil {
 		s.contractUpdates = &orderedmap.OrderedMap[interpreter.StorageKey, *interpreter.CompositeValue]{}
 	}
+
+	// NOTE: the contract value of a replaced contract update will never be written.
+	// Remember it, so that its slabs get removed when the contract updates are committed
+
+	replacedContractValue, _ := s.contractUpdates.Get(key)
+	if replacedContractValue != nil && replacedContractValue != contractValue {
+		s.replacedContractValues = append(s.replacedContractValues, replacedContractValue)
+	}
+
 	s.contractUpdates.Set(key, contractValue)
 }
 
@@ -221,6 +237,16 @@ func (s *Storage) commitContractUpdates(context interpreter.ValueTransferContext
 	for pair := s.contractUpdates.Oldest(); pair != nil; pair = pair.Next() {
 		s.writeContractUpdate(context, pair.Key, pair.Value)
 	}
+
+	// Remove the contract values of replaced contract updates, which were never written
+
+	for _, replacedContractValue := range s.replacedContractValues {
+		slabID := replacedContractValue.SlabID()
+		// The value is standalone, because it was never written
+		replacedContractValue.DeepRemove(context, true)
+		interpreter.RemoveReferencedSlab(context, atree.SlabIDStorable(slabID))
+	}
+	s.replacedContractValues = nil
 }
 
 func (s *Storage) writeContractUpdate(
